@@ -30,6 +30,7 @@ AUDITED = {
     ("autograd/tracer.py", "primitive", "attr"): "sets attributes on the freshly created wrapper function",
     ("autograd/tracer.py", "notrace_primitive", "attr"): "sets attributes on the freshly created wrapper function",
     ("autograd/wrap_util.py", "wraps._wraps", "attr"): "sets __name__/__doc__ on a freshly created function",
+    ("autograd/wrap_util.py", "wraps._wraps", "attr-param"): "decorator: sets __name__/__doc__ on the function object being created by its only callers",
     ("autograd/core.py", "VJPNode.__init__", "attr"): "constructor writing its own fresh node",
     ("autograd/core.py", "VJPNode.initialize_root", "attr"): "constructor writing its own fresh node",
     ("autograd/core.py", "JVPNode.__init__", "attr"): "constructor writing its own fresh node",
@@ -64,6 +65,8 @@ class Scope(ast.NodeVisitor):
             if isinstance(n, (ast.ClassDef,)):
                 self.module_globals.add(n.name)
         self.locals_stack = []
+        self.alias_stack = []
+        self.param_stack = []
         # names bound by `<name> = vspace(...)`: VSpace objects, whose .add is the (pure) vector addition, not set.add
         self.vspace_names = {t.id for n in ast.walk(tree) if isinstance(n, ast.Assign) and isinstance(n.value, ast.Call) and isinstance(n.value.func, ast.Name)
                              and n.value.func.id == "vspace" for t in n.targets if isinstance(t, ast.Name)}
@@ -83,12 +86,27 @@ class Scope(ast.NodeVisitor):
                 loc.add(n.id)
             if isinstance(n, (ast.FunctionDef, ast.ClassDef)) and n is not node:
                 loc.add(n.name)
+        # locals that merely ALIAS a module-level mutable object (`buf = _scratch`): a store through them is a store into process-wide state
+        al = set()
+        for n in ast.walk(node):
+            if isinstance(n, ast.Assign) and isinstance(n.value, ast.Name) and (n.value.id in self.module_globals or n.value.id in KNOWN_STATE) and n.value.id not in loc:
+                for t in n.targets:
+                    if isinstance(t, ast.Name):
+                        al.add(t.id)
+        self.alias_stack.append(al)
         self.locals_stack.append(loc)
+        a = node.args
+        self.param_stack.append({x.arg for x in a.posonlyargs + a.args + a.kwonlyargs} | ({a.vararg.arg} if a.vararg else set()) | ({a.kwarg.arg} if a.kwarg else set()))
         self.generic_visit(node)
+        self.param_stack.pop()
         self.locals_stack.pop()
+        self.alias_stack.pop()
         self.stack.pop()
 
     visit_AsyncFunctionDef = visit_FunctionDef
+
+    def is_global_alias(self, name):
+        return any(name in a for a in self.alias_stack)
 
     def visit_Lambda(self, node):
         loc = {a.arg for a in node.args.args}
@@ -134,12 +152,13 @@ class Scope(ast.NodeVisitor):
     def _store_target(self, t, node):
         if isinstance(t, (ast.Subscript, ast.Attribute)):
             r = self.root(t)
-            if r is not None and not self.is_local(r) and self.stack and r not in ("self", "cls"):
-                self.site("store-global", node)      # write through a module-level name from inside a function
+            if r is not None and (not self.is_local(r) or self.is_global_alias(r)) and self.stack and r not in ("self", "cls"):
+                self.site("store-global", node)      # write through a module-level name (or a local alias of one) from inside a function
             elif isinstance(t, ast.Attribute) and isinstance(t.value, ast.Name) and t.value.id in ("self", "cls") and self.stack:
                 self.site("attr", node)
             elif isinstance(t, ast.Attribute) and self.stack and r is not None and self.is_local(r):
-                self.site("attr", node)
+                # an attribute store on an object RECEIVED from the caller (a parameter other than self) changes state that outlives the call
+                self.site("attr-param" if (self.param_stack and r in self.param_stack[-1]) else "attr", node)
 
     def visit_Assign(self, node):
         for t in node.targets:
@@ -153,6 +172,7 @@ class Scope(ast.NodeVisitor):
     def visit_Delete(self, node):
         for t in node.targets:
             self._closure_store(t, node)
+            self._store_target(t, node)      # `del G[:]` / `del G[k]` on process-wide state (or an alias of it)
         self.generic_visit(node)
 
     def visit_AugAssign(self, node):
@@ -172,7 +192,7 @@ class Scope(ast.NodeVisitor):
         f = node.func
         if isinstance(f, ast.Attribute) and f.attr in MUTATORS and self.stack:
             r = self.root(f.value)
-            if r is not None and not self.is_local(r) and (r in self.module_globals or r in KNOWN_STATE):
+            if r is not None and ((not self.is_local(r) and (r in self.module_globals or r in KNOWN_STATE)) or self.is_global_alias(r)):
                 self.site("mutator-global", node)
         if isinstance(f, ast.Attribute) and f.attr in MUTATORS and self.stack:
             r = self.root(f.value)
@@ -275,6 +295,10 @@ def run_frame(rep, tier):
             elif kind in ("attr", "aug", "next"):
                 ok = (rel, q, kind) in AUDITED or q.split(".")[-1] in ("__init__", "initialize_root")
                 why = "attribute store / counter draw outside the audited list"
+            elif kind == "attr-param":
+                ok = (rel, q, kind) in AUDITED or q.split(".")[0].startswith("deprecated")
+                why = ("attribute store on an object received as a parameter (not self): the object outlives the call, so later calls - with this or any other "
+                       "caller - see state left by this one")
             elif kind == "foreign-global-state":
                 ok = False
                 why = "changes process-wide state of another library (error/warning/random state) without a restoring context manager: later calls see a different interpreter"
